@@ -23,6 +23,7 @@ type thread struct {
 	name    string
 	harness bool
 	crashPending bool
+	task    int // harness-level task this thread belongs to (threads started by the code under test inherit it)
 }
 
 type sched struct {
@@ -39,6 +40,7 @@ type sched struct {
 	schedTrace   []string
 	crashOwner   *thread
 	deferSpawn   bool
+	taskCnt      int
 	crashBase    int
 }
 
@@ -84,9 +86,30 @@ func (i *interpreter) switchTo(t *thread) {
 	}
 }
 
-// pickNext chooses the thread to run when the current one cannot continue.
+// otherTaskReps returns, for every task other than the current one, its lowest-numbered runnable thread.
+func (i *interpreter) otherTaskReps() []*thread {
+	var out []*thread
+	seen := map[int]bool{}
+	for _, t := range i.threads {
+		if t == i.cur || t.task == i.cur.task || seen[t.task] || !t.runnable() {
+			continue
+		}
+		seen[t.task] = true
+		out = append(out, t)
+	}
+	return out
+}
+
+// pickNext chooses the thread to run when the current one cannot continue.  Threads of one
+// task (one request) run sequentially: while any of them is runnable the task keeps the
+// processor; scheduling choices exist only between tasks.
 func (i *interpreter) pickNext() *thread {
-	cands := i.runnableOthers()
+	for _, t := range i.threads {
+		if t != i.cur && t.task == i.cur.task && t.runnable() {
+			return t
+		}
+	}
+	cands := i.otherTaskReps()
 	if len(cands) == 0 {
 		return nil
 	}
@@ -129,12 +152,13 @@ func (i *interpreter) describeThreads() string {
 	return s
 }
 
-// yield is a scheduling point before a visible operation (explore mode only).
+// yield is a scheduling point before a visible operation (explore mode only): the
+// current task may be pre-empted in favour of another task, within the pre-emption bound.
 func (i *interpreter) yield(what string) {
 	if !i.explore || i.preempts >= i.preemptBound {
 		return
 	}
-	cands := i.runnableOthers()
+	cands := i.otherTaskReps()
 	if len(cands) == 0 {
 		return
 	}
@@ -143,7 +167,9 @@ func (i *interpreter) yield(what string) {
 		return
 	}
 	i.preempts++
+	i.w.stats.Preemptions++
 	i.schedTrace = append(i.schedTrace, fmt.Sprintf("preempt@%s->T%d", what, cands[k-1].id))
+	i.trace = append(i.trace, fmt.Sprintf("preempt@%s:T%d->T%d", what, i.cur.id, cands[k-1].id))
 	i.switchTo(cands[k-1])
 }
 
@@ -174,7 +200,11 @@ func (i *interpreter) spawnThread(pos token.Pos, fn value, args []value, harness
 	if i.P.parkForever[name] {
 		return // e.g. `go func(){ <-ctx.Done(); ... }()` with a context that is never cancelled
 	}
-	t := &thread{id: len(i.threads), wake: make(chan struct{}, 1), name: name, harness: harness}
+	t := &thread{id: len(i.threads), wake: make(chan struct{}, 1), name: name, harness: harness, task: i.cur.task}
+	if harness {
+		i.taskCnt++
+		t.task = i.taskCnt
+	}
 	i.threads = append(i.threads, t)
 	i.wg.Add(1)
 	go func() {
@@ -221,10 +251,8 @@ func (i *interpreter) spawnThread(pos token.Pos, fn value, args []value, harness
 		}
 		call(i, nil, pos, fn, args)
 	}()
-	if i.explore {
-		// the new thread is runnable; whether it runs now is a scheduling decision
-		i.yield("go")
-		return
+	if harness {
+		return // harness threads start when the harness joins them
 	}
 	if i.deferSpawn {
 		return // the new goroutine runs only once its creator blocks or ends
